@@ -122,6 +122,23 @@ def pcgls_preconditioner(c, branch, form='matrix'):
         config.MAX_DIM_INV = old
 
 
+def lm_converged(c, problem, nu0):
+    """the REAL Levenberg-Marquardt solver run to convergence on standard non-linear least-squares problems (starting points perturbed), for default and
+    non-default damping floors nu0: the returned point is a stationary point of the sum of squares (bounded stand-in: native)"""
+    d = 0.05 * np.array([c.real('d0'), c.real('d1')])
+    if problem == 'rosenbrock':
+        r = lambda x: np.array([10 * (x[1] - x[0] ** 2), 1 - x[0]]); Jf = lambda x: np.array([[-20 * x[0], 10.0], [-1.0, 0.0]]); x0 = np.array([-1.2, 1.0]) + d
+    elif problem == 'freudenstein_roth':
+        r = lambda x: np.array([-13 + x[0] + ((5 - x[1]) * x[1] - 2) * x[1], -29 + x[0] + ((x[1] + 1) * x[1] - 14) * x[1]])
+        Jf = lambda x: np.array([[1.0, 10 * x[1] - 3 * x[1] ** 2 - 2], [1.0, 3 * x[1] ** 2 + 2 * x[1] - 14]]); x0 = np.array([0.5, -2.0]) + d
+    else:                                                   # residuals in small units
+        r = lambda x: 1e-2 * np.array([10 * (x[1] - x[0] ** 2), 1 - x[0]]); Jf = lambda x: 1e-2 * np.array([[-20 * x[0], 10.0], [-1.0, 0.0]]); x0 = np.array([-1.2, 1.0]) + d
+    g0 = np.linalg.norm(Jf(x0).T @ r(x0))
+    xs, info = S.LM(r, x0.copy(), Jf, maxit=20000, gradtol=1e-8, nu0=nu0, sparse=False).solve()
+    g = np.linalg.norm(Jf(xs).T @ r(xs))
+    c.holds('returned_point_is_stationary_for_the_sum_of_squares', bool(g <= 1e-6 * g0), note=f"|J^T r| = {g:.3g} (start {g0:.3g})")
+
+
 def cgls_converged(c, m, n, form, shifted):
     """the REAL CGLS (public constructor, generous iteration budget) run to convergence from a random start vector on over- and UNDER-determined systems, with
     and without shift: the returned point solves (A^T A + shift I) x = A^T b (bounded stand-in: native)"""
@@ -245,7 +262,7 @@ def lm_loop(c, m=2, n=2, sparse=False):
     c.eq('init_g_is_JT_r', st['g'], Jf(x0).T @ A(x0)); c.eq('init_gradient_norm', st['ng'] * st['ng'], np.sum((Jf(x0).T @ A(x0)) ** 2))
     c.eq('reference_gradient_norm_is_initial', st['ng0'], st['ng'])
     # one arbitrary iteration from a state satisfying the invariant
-    xk = c.vec('xk', n); nu = c.real('nu', pos=True); ng0 = c.real('ng0', pos=True)
+    xk = c.vec('xk', n); nu = c.real('nu', nonneg=True); ng0 = c.real('ng0', pos=True)      # nu = 0 is reachable: the code switches damping off after good steps
     gk = Jf(xk).T @ A(xk)
     st1 = dict(st); st1.update(x=xk, r=A(xk), J=Jf(xk), g=gk, ng=c.sqrt(np.sum(gk ** 2)), ng0=ng0, nu=nu, f=0.5 * (A(xk) @ A(xk)), i=3)
     tag, st2 = body(st1)
@@ -350,4 +367,8 @@ def jobs(tier):
         J.append(Job(f'LM.solve:loop0:invariant_and_exit:m={m_}:n={n_}', lambda c, m_=m_, n_=n_: lm_loop(c, m_, n_), 'Pbox', F('LM.solve', 'LM.__init__'), _extra, maxpaths=2048, timeout=1500, rtol=1e-5))
     for w in ('minimize', 'maximize', 'L_BFGS_B', 'LS'):
         J.append(Job(f'{w}.solve:scipy_wrapper', lambda c, w=w: scipy_wrappers(c, w), 'Pbox', F(f'{w}.solve', f'{w}.__init__'), _extra))
+    for problem in ('rosenbrock', 'freudenstein_roth', 'rosenbrock_small_units'):
+        for nu0 in (1e-3, 1.0, 10.0):
+            if problem.endswith('small_units') and nu0 > 1e-3: continue     # damping far above |J^T J|: (slow) gradient descent, convergence within a budget is not promised
+            J.append(Job(f'LM:real_constructor:run_to_convergence:{problem}:nu0={nu0:g}', lambda c, p_=problem, nu0=nu0: lm_converged(c, p_, nu0), 'B', F('LM.__init__', 'LM.solve'), nnum=3))
     return J
